@@ -1135,8 +1135,16 @@ func (x *Exec) matchEvent(sc *specCtx, f ast.Expr, ev *Event) Term {
 		case IfaceV:
 			if ev.Method != f.Sel.Name {
 				// may be a statically dispatched method on a known dynamic type
-				if nameMatches(ev.Name, f.Sel.Name) && len(ev.Args) > 0 {
-					return tTrue
+				if ev.Method == "" && nameMatches(ev.Name, f.Sel.Name) && len(ev.Args) > 0 {
+					// statically dispatched method: the receiver must be the interface's payload
+					fa := x.flatten(ev.Args[0])
+					rt := ev.Args[0].GoType()
+					if it, ok := b.Typ.Underlying().(*types.Interface); ok && rt != nil && !types.Implements(rt, it) {
+						return tFalse // the receiver's type cannot be the dynamic type of this interface value
+					}
+					if len(fa) == 1 {
+						return and(eq(fa[0], b.Val), eq(b.Tag, intLit(int64(x.typeID(rt)))))
+					}
 				}
 				return tFalse
 			}
@@ -1149,6 +1157,12 @@ func (x *Exec) matchEvent(sc *specCtx, f ast.Expr, ev *Event) Term {
 			if ev.Method == "" && nameMatches(ev.Name, f.Sel.Name) && len(ev.Args) > 0 {
 				fa := x.flatten(ev.Args[0])
 				fb := x.flatten(base)
+				if _, isStruct := b.(StructV); isStruct && len(fa) == 1 {
+					// method with pointer receiver called on an addressable struct field: compare addresses
+					if ap, ok := x.evalAddr(sc, f.X); ok {
+						return eq(fa[0], x.ptrScalar(ap))
+					}
+				}
 				if len(fa) == len(fb) {
 					cs := make([]Term, len(fa))
 					for i := range fa {
@@ -1669,12 +1683,17 @@ func (x *Exec) isSentinel(g *ssa.Global) bool {
 					if n.Name != g.Name() || i >= len(vs.Values) {
 						continue
 					}
-					ce, ok := vs.Values[i].(*ast.CallExpr)
-					if !ok {
-						return false
+					switch v := vs.Values[i].(type) {
+					case *ast.CallExpr:
+						fn := exprString(v.Fun)
+						return fn == "errors.New" || fn == "fmt.Errorf" || fn == "New" && pp.PkgPath == "errors"
+					case *ast.CompositeLit:
+						return true // e.g. context.DeadlineExceeded = deadlineExceededError{}
+					case *ast.UnaryExpr:
+						_, isLit := v.X.(*ast.CompositeLit)
+						return isLit
 					}
-					fn := exprString(ce.Fun)
-					return fn == "errors.New" || fn == "fmt.Errorf" || fn == "New" && pp.PkgPath == "errors"
+					return false
 				}
 			}
 		}
